@@ -1,5 +1,5 @@
 """Shared bounded-shape driver for C03 (NTT), C04 (INTT), C05 (extendPol), C19 (call histories)."""
-import itertools, time, os
+import itertools, time, os, re
 from .nttmodel import NTTWorld, dft_matrix, lde_matrix, expected_forms
 from .interp import Ptr, NULL, Incomplete, Sink
 from .ir import IRError
@@ -326,7 +326,7 @@ def _table_worker(args):
         offs = member_offsets(W.mod)
 
         def table(name, n):
-            c = I.mem.get((this.reg, offs[name]))
+            c = I.mem.get((this.reg, offs[name])) if name in offs else None
             ptr = c[0] if c else None
             if not isinstance(ptr, Ptr):
                 return None
@@ -342,8 +342,9 @@ def _table_worker(args):
         w = W.W(k)
         bad = []
         roots = table('roots', cap)
-        if roots is None:
-            bad.append('roots table not found')
+        if roots is None or table('powTwoInv', k + 1) is None:
+            out.append(('ctor capacity=%d' % cap, None, 'the members roots / powTwoInv were not identified'))
+            return out
         else:
             acc = 1
             for i in range(cap):
@@ -364,17 +365,27 @@ def _table_worker(args):
             cr = W.mod.find_re(r'^NTT_Goldilocks::computeR\(')
         except Exception:
             cr = []
+        if not cr:
+            # renamed: the method (this, N) that writes the members r and r_ itself
+            from . import rules as _rules
+            fields = _rules.class_fields(W.mod)
+            want = {i for i, nm in fields.items() if nm in ('r', 'r_')}
+            for n_ in _rules.own_methods(W.mod):
+                if re.search(r'\(unsigned long\)$', W.mod.dem[n_]) and want and want <= set(_rules.field_writes(W.mod, n_)):
+                    cr.append(n_)
+            if len(cr) != 1:
+                out.append(('computeR', None, 'the routine that fills the coset tables r / r_ was not identified (not computeR by name, no single method (N) writing both members)'))
+                return out
         for N in ns:
             bad = []
-            if not cr:
-                bad.append('computeR not found')
-            else:
+            if True:
                 I.call(cr[0], [this, N])
                 r = table('r', N)
                 r_ = table('r_', N)
                 ninv = pow(N, P - 2, P)
                 if r is None or r_ is None:
-                    bad.append('r / r_ tables not found')
+                    out.append(('computeR capacity=%d N=%d' % (cap, N), None, 'the members r / r_ were not identified'))
+                    continue
                 else:
                     acc = 1
                     for i in range(N):
